@@ -292,6 +292,7 @@ type CodecCase struct {
 	Batches []int  `json:"batches,omitempty"` // levels: number of files per L0 batch (Compact(1) after each)
 	Cache   bool   `json:"cache,omitempty"`
 	L2      bool   `json:"l2,omitempty"`
+	Drain   bool   `json:"drain,omitempty"` // levels: after each batch compact until ErrNoCompaction (long backlogs)
 	GC      bool   `json:"gc"` // generator intended a growth-complete contiguous chain
 }
 
@@ -411,10 +412,11 @@ func lfLess(a, b LF) bool {
 }
 
 type codecCtx struct {
-	res *hx.Result
-	drv *hx.Driver
-	tmp string
-	n   int
+	res         *hx.Result
+	drv         *hx.Driver
+	tmp         string
+	n           int
+	maxRestoreN int // levels stream: Restore every TXID when the chain has at most this many files
 }
 
 func (cc *codecCtx) ask(line string) string {
@@ -601,7 +603,7 @@ func (cc *codecCtx) runLevels(c CodecCase) (string, string) {
 	logical := map[string]LF{} // "lvl/min/max" -> content
 	key := func(l int, a, b ltx.TXID) string { return fmt.Sprintf("%d/%d/%d", l, a, b) }
 
-	compactOnce := func(dst int) (string, string) {
+	compactOnce := func(dst int) (dis string, vio string, none bool) {
 		before, err := listFiles(ctx, client, []int{dst - 1, dst})
 		if err != nil {
 			hx.Fatal(err)
@@ -640,46 +642,58 @@ func (cc *codecCtx) runLevels(c CodecCase) (string, string) {
 			cc.res.Count("levels:" + strings.SplitN(impl, ":", 2)[0])
 			if impl == "err nocompaction" {
 				if hx.Differs(impl, lm) {
-					return fmt.Sprintf("level impl=%q model=%q", impl, lm), ""
+					return fmt.Sprintf("level impl=%q model=%q", impl, lm), "", true
 				}
-				return "", ""
+				return "", "", true
 			}
 			// content-level error: model's pick must exist and model's compact must give the same error
 			cm := cc.ask(fmt.Sprintf("cmpct LOCK=%d IN=%s", lock, textAll(srcs)))
 			if hx.Differs(impl, cm) {
-				return fmt.Sprintf("level-cmpct impl=%q model=%q", impl, cm), ""
+				dis = fmt.Sprintf("level-cmpct impl=%q model=%q", impl, cm)
 			}
-			return "", ""
+			if c.GC {
+				vio = fmt.Sprintf("Compact(%d) of a contiguous growth-complete source level fails: %v", dst, err)
+			}
+			return dis, vio, true
 		}
 		cc.res.Count("levels:ok")
-		impl := fmt.Sprintf("ok %d:%d seek=%d src=%s", info.MinTXID, info.MaxTXID, prevMax+1, strings.Join(srcNames, ","))
-		if hx.Differs(impl, lm) {
-			return fmt.Sprintf("level impl=%q model=%q", impl, lm), ""
-		}
+		cc.res.Count(fmt.Sprintf("levels:sources=%s", bucket(len(srcs))))
 		g, _, derr := readLogical(ctx, client, dst, info.MinTXID, info.MaxTXID, tokCodec)
 		if derr != nil {
-			return "", "compacted file unreadable: " + derr.Error()
+			return "", "compacted file unreadable: " + derr.Error(), false
 		}
 		logical[key(dst, info.MinTXID, info.MaxTXID)] = g
-		cm := cc.ask(fmt.Sprintf("cmpct LOCK=%d IN=%s", lock, textAll(srcs)))
-		if a := "ok " + g.text(); hx.Differs(a, cm) {
-			return fmt.Sprintf("level-cmpct impl=%q model=%q", a, cm), ""
+		impl := fmt.Sprintf("ok %d:%d hdr=%d:%d seek=%d src=%s", info.MinTXID, info.MaxTXID, g.Min, g.Max, prevMax+1, strings.Join(srcNames, ","))
+		if hx.Differs(impl, lm) {
+			dis = fmt.Sprintf("level impl=%q model=%q", clip(impl), clip(lm))
+		} else {
+			cm := cc.ask(fmt.Sprintf("cmpct LOCK=%d IN=%s", lock, textAll(srcs)))
+			if a := "ok " + g.text(); hx.Differs(a, cm) {
+				dis = fmt.Sprintf("level-cmpct impl=%q model=%q", clip(a), clip(cm))
+			}
 		}
-		// oracle: header range = name; new file starts where the previous ended; level contiguous
+		// oracle (independent of the model and of the number of sources):
+		// header range = name = union of the merged sources; new file starts where the previous
+		// ended and ends at a source-file boundary; level contiguous; content = its L0 range composed
 		if uint64(info.MinTXID) != g.Min || uint64(info.MaxTXID) != g.Max {
-			return "", fmt.Sprintf("file name %d-%d but header %d-%d", info.MinTXID, info.MaxTXID, g.Min, g.Max)
+			return dis, fmt.Sprintf("level %d file name %d-%d but header %d-%d", dst, info.MinTXID, info.MaxTXID, g.Min, g.Max), false
 		}
 		if c.GC {
 			if prevMax != 0 && info.MinTXID != prevMax+1 {
-				return "", fmt.Sprintf("level %d: new file starts at %d, previous ended at %d", dst, info.MinTXID, prevMax)
+				return dis, fmt.Sprintf("level %d: new file starts at %d, previous ended at %d", dst, info.MinTXID, prevMax), false
 			}
-			if info.MaxTXID != srcMax {
-				return "", fmt.Sprintf("level %d: new file ends at %d, source level ends at %d", dst, info.MaxTXID, srcMax)
+			boundary := false
+			for _, f := range before {
+				if f.Level == dst-1 && f.MaxTXID == info.MaxTXID && f.MinTXID >= info.MinTXID {
+					boundary = true
+				}
+			}
+			if !boundary {
+				return dis, fmt.Sprintf("level %d: new file ends at %d, which is not the end of any source file", dst, info.MaxTXID), false
 			}
 			if why := levelContiguous(ctx, client, dst); why != "" {
-				return "", why
+				return dis, why, false
 			}
-			// content = composition of the L0 files of its range
 			var l0 []LF
 			for _, f := range c.Files {
 				if f.Min >= g.Min && f.Max <= g.Max {
@@ -687,10 +701,42 @@ func (cc *codecCtx) runLevels(c CodecCase) (string, string) {
 				}
 			}
 			if why := equivCompacted(g, l0, lock); why != "" {
-				return "", fmt.Sprintf("level %d file %d-%d: %s", dst, g.Min, g.Max, why)
+				return dis, fmt.Sprintf("level %d file %d-%d: %s", dst, g.Min, g.Max, why), false
 			}
 		}
-		return "", ""
+		return dis, "", false
+	}
+	// step compacts dst once, or (Drain) until nothing is left; then the level must cover its source level
+	var accDis string
+	step := func(dst int) string {
+		for k := 0; k < 12; k++ {
+			d, v, none := compactOnce(dst)
+			if d != "" && accDis == "" {
+				accDis = d
+			}
+			if v != "" {
+				return v
+			}
+			if none || !c.Drain {
+				break
+			}
+		}
+		if c.Drain && c.GC {
+			infos, _ := listFiles(ctx, client, []int{dst - 1, dst})
+			var srcEnd, dstEnd ltx.TXID
+			for _, f := range infos {
+				if f.Level == dst && f.MaxTXID > dstEnd {
+					dstEnd = f.MaxTXID
+				}
+				if f.Level == dst-1 && f.MaxTXID > srcEnd {
+					srcEnd = f.MaxTXID
+				}
+			}
+			if srcEnd != 0 && dstEnd != srcEnd {
+				return fmt.Sprintf("level %d ends at %d after compacting until nothing is left, source level ends at %d", dst, dstEnd, srcEnd)
+			}
+		}
+		return ""
 	}
 
 	i := 0
@@ -707,24 +753,102 @@ func (cc *codecCtx) runLevels(c CodecCase) (string, string) {
 			}
 			logical[key(0, ltx.TXID(f.Min), ltx.TXID(f.Max))] = f
 		}
-		if d, v := compactOnce(1); d != "" || v != "" {
-			return d, v
+		if v := step(1); v != "" {
+			return accDis, v
 		}
-		if c.L2 && cc.n%2 == 0 {
-			if d, v := compactOnce(2); d != "" || v != "" {
-				return d, v
+		if c.L2 && cc.n%2 == 0 && !c.Drain {
+			if v := step(2); v != "" {
+				return accDis, v
 			}
 		}
 	}
 	if c.L2 {
-		if d, v := compactOnce(2); d != "" || v != "" {
-			return d, v
+		if v := step(2); v != "" {
+			return accDis, v
 		}
-		if d, v := compactOnce(3); d != "" || v != "" {
-			return d, v
+		if v := step(3); v != "" {
+			return accDis, v
 		}
 	}
-	return "", ""
+	// Restore(TXID=t) for every t equals the L0 chain applied up to t, whatever levels the plan uses
+	if c.GC && len(c.Files) > 0 && c.Files[0].Min == 1 && len(c.Files) <= cc.maxRestoreN {
+		rep := litestream.NewReplicaWithClient(nil, client)
+		for k, f := range c.Files {
+			out := filepath.Join(dir, fmt.Sprintf("r%d", k))
+			opt := litestream.NewRestoreOptions()
+			opt.OutputPath = out
+			opt.TXID = ltx.TXID(f.Max)
+			if err := rep.Restore(ctx, opt); err != nil {
+				return accDis, fmt.Sprintf("Restore(TXID=%d) fails after compaction: %v", f.Max, err)
+			}
+			img, err := os.ReadFile(out)
+			os.Remove(out)
+			if err != nil {
+				hx.Fatal(err)
+			}
+			d, sz := applySeq(nil, 0, c.Files[:k+1])
+			if got, want := imgText(img, codecPS, tokCodec), dbText(d, sz); got != want {
+				return accDis, fmt.Sprintf("Restore(TXID=%d) after compaction differs from the L0 files 1..%d applied in order", f.Max, f.Max)
+			}
+			cc.res.Count("levels:restore-ok")
+		}
+	}
+	return accDis, ""
+}
+
+func bucket(n int) string {
+	switch {
+	case n <= 3:
+		return fmt.Sprint(n)
+	case n < 63:
+		return "4-62"
+	case n <= 66:
+		return fmt.Sprint(n)
+	case n <= 100:
+		return "67-100"
+	case n <= 130:
+		return "101-130"
+	}
+	return ">130"
+}
+
+func clip(s string) string {
+	if len(s) > 400 {
+		return s[:400] + "…"
+	}
+	return s
+}
+
+// genBacklog: a growth-complete chain of n single-TXID files (tiny transactions) starting with a
+// snapshot at TXID 1: long backlogs before one compaction. level2 = every file is compacted into
+// level 1 on its own, so that level 2 sees a backlog of n level-1 files.
+func genBacklog(r *hx.Rand, n int, level2 bool) CodecCase {
+	c := CodecCase{Kind: "levels", GC: true, Drain: true, L2: true, Cache: r.Bool()}
+	prevCommit := uint32(0)
+	ts := int64(5000)
+	for i := 1; i <= n; i++ {
+		f := LF{Min: uint64(i), Max: uint64(i), TS: ts}
+		ts += 1 + int64(r.Intn(20))
+		f.Commit = 1 + uint32(i/24)
+		if r.Chance(3) && f.Commit > 1 {
+			f.Commit--
+		}
+		for p := uint32(1); p <= f.Commit; p++ {
+			if i == 1 || p > prevCommit || p == 1+uint32(i)%f.Commit || r.Chance(10) {
+				f.Pages = append(f.Pages, Page{p, genTok(r)})
+			}
+		}
+		c.Files = append(c.Files, f)
+		prevCommit = f.Commit
+	}
+	if level2 {
+		for i := 0; i < n; i++ {
+			c.Batches = append(c.Batches, 1)
+		}
+	} else {
+		c.Batches = []int{n}
+	}
+	return c
 }
 
 func levelContiguous(ctx context.Context, client litestream.ReplicaClient, level int) string {
@@ -784,7 +908,42 @@ func (cc *codecCtx) run(c CodecCase) (string, string) {
 	return cc.runPure(c)
 }
 
+// withFiles keeps the batch structure meaningful for a shortened chain.
+func withFiles(c CodecCase, fs []LF) CodecCase {
+	d := c
+	d.Files = fs
+	if d.Kind == "levels" {
+		if len(c.Batches) > 1 && c.Drain {
+			d.Batches = make([]int, len(fs))
+			for i := range d.Batches {
+				d.Batches[i] = 1
+			}
+		} else {
+			d.Batches = []int{len(fs)}
+		}
+	}
+	return d
+}
+
 func shrinkCodec(c CodecCase, fails func(CodecCase) bool) CodecCase {
+	if c.GC {
+		// a growth-complete contiguous chain stays one only when cut at its ends: shortest failing
+		// prefix (binary search, then linear), then drop leading files while the chain still starts a case
+		deadline := time.Now().Add(60 * time.Second)
+		lo, hi := 1, len(c.Files)
+		for lo < hi && time.Now().Before(deadline) {
+			mid := (lo + hi) / 2
+			if fails(withFiles(c, c.Files[:mid])) {
+				hi = mid
+			} else {
+				lo = mid + 1
+			}
+		}
+		if hi < len(c.Files) && fails(withFiles(c, c.Files[:hi])) {
+			c = withFiles(c, c.Files[:hi])
+		}
+		return c
+	}
 	for changed := true; changed; {
 		changed = false
 		// drop a file
@@ -883,6 +1042,32 @@ type HistCase struct {
 	Levels     int   `json:"levels"` // number of compaction levels above 0 (1..8)
 	Ops        []HOp `json:"ops"`
 	ViaStore   bool  `json:"via_store"`
+}
+
+// genHistBacklog: n tiny transactions, each synced, before a compaction drains level 1 (long
+// backlog of L0 files); level2: every L0 file is compacted into level 1 at once so that level 2
+// sees a backlog of n L1 files. Then everything is drained upwards and snapshotted.
+func genHistBacklog(r *hx.Rand, n int, level2 bool) HistCase {
+	h := HistCase{PageSize: []int{512, 1024}[r.Intn(2)], AutoVacuum: 0, Levels: 2 + r.Intn(2)}
+	for i := 0; i < n; i++ {
+		switch r.Intn(10) {
+		case 0:
+			h.Ops = append(h.Ops, HOp{Op: "update", A: r.Intn(1000), B: 10 + r.Intn(60)})
+		case 1:
+			h.Ops = append(h.Ops, HOp{Op: "insert", A: 1, B: 600 + r.Intn(900)})
+		default:
+			h.Ops = append(h.Ops, HOp{Op: "insert", A: 1, B: 8 + r.Intn(40)})
+		}
+		h.Ops = append(h.Ops, HOp{Op: "sync"})
+		if level2 {
+			h.Ops = append(h.Ops, HOp{Op: "compact", A: 1, B: 1})
+		}
+	}
+	for l := 1; l <= h.Levels; l++ {
+		h.Ops = append(h.Ops, HOp{Op: "compact", A: l, B: 1})
+	}
+	h.Ops = append(h.Ops, HOp{Op: "insert", A: 1, B: 30}, HOp{Op: "sync"}, HOp{Op: "compact", A: 1, B: 1}, HOp{Op: "compact", A: 2, B: 1}, HOp{Op: "snapshot"})
+	return h
 }
 
 func genHist(r *hx.Rand, nops int) HistCase {
@@ -1105,7 +1290,9 @@ func runHist(h HistCase, drv *hx.Driver, root string, n int) (hr histResult) {
 		return ""
 	}
 
-	for i, op := range h.Ops {
+	repeat := 0
+	for i := 0; i < len(h.Ops); i++ {
+		op := h.Ops[i]
 		hr.stats["op:"+op.Op]++
 		var err error
 		switch op.Op {
@@ -1190,6 +1377,14 @@ func runHist(h HistCase, drv *hx.Driver, root string, n int) (hr histResult) {
 			if cerr != nil {
 				if errors.Is(cerr, litestream.ErrNoCompaction) || errors.Is(cerr, litestream.ErrCompactionTooEarly) {
 					hr.stats["compact-skipped"]++
+					if op.Op == "compact" && op.B == 1 && errors.Is(cerr, litestream.ErrNoCompaction) {
+						// drained: the level must now cover its whole source level
+						repeat = 0
+						if srcMax != 0 && prevMax != srcMax {
+							hr.violation = fmt.Sprintf("level %d ends at %d after compacting until nothing is left, source level ends at %d", dst, prevMax, srcMax)
+							return
+						}
+					}
 					break
 				}
 				hr.violation = fmt.Sprintf("op %d %s(%d) fails: %v", i, op.Op, dst, cerr)
@@ -1201,7 +1396,7 @@ func runHist(h HistCase, drv *hx.Driver, root string, n int) (hr histResult) {
 				if e != nil {
 					hx.Fatal(e)
 				}
-				a := fmt.Sprintf("ok %d:%d seek=%d", info.MinTXID, info.MaxTXID, prevMax+1)
+				a := fmt.Sprintf("ok %d:%d hdr=%d:%d seek=%d", info.MinTXID, info.MaxTXID, info.MinTXID, info.MaxTXID, prevMax+1)
 				if m != "-" && !strings.HasPrefix(m, a+" ") && hr.disagree == "" {
 					hr.disagree = fmt.Sprintf("history level DST=%d: impl=%q model=%q", dst, a, m)
 				}
@@ -1215,8 +1410,19 @@ func runHist(h HistCase, drv *hx.Driver, root string, n int) (hr histResult) {
 					hr.violation = fmt.Sprintf("level %d: new file starts at %d, previous ended at %d", dst, info.MinTXID, prevMax)
 					return
 				}
-				if info.MaxTXID != srcMax {
-					hr.violation = fmt.Sprintf("level %d: new file ends at %d, source level ends at %d", dst, info.MaxTXID, srcMax)
+				boundary := false
+				nsrc := 0
+				for _, f := range before {
+					if f.Level == dst-1 && f.MinTXID >= info.MinTXID {
+						nsrc++
+						if f.MaxTXID == info.MaxTXID {
+							boundary = true
+						}
+					}
+				}
+				hr.stats["sources="+bucket(nsrc)]++
+				if !boundary {
+					hr.violation = fmt.Sprintf("level %d: new file ends at %d, which is not the end of any source file", dst, info.MaxTXID)
 					return
 				}
 				if why := levelContiguous(ctx, client, dst); why != "" {
@@ -1230,6 +1436,10 @@ func runHist(h HistCase, drv *hx.Driver, root string, n int) (hr histResult) {
 			if why := checkRestores(fmt.Sprintf("after op %d (%s %d)", i, op.Op, dst), false); why != "" {
 				hr.violation = why
 				return
+			}
+			if op.Op == "compact" && op.B == 1 && repeat < 12 {
+				repeat++
+				i-- // drain: compact the same level again until ErrNoCompaction
 			}
 		}
 		if err != nil {
@@ -1290,7 +1500,7 @@ type replayFile struct {
 func main() {
 	o := hx.ParseFlags("C06")
 	res := hx.NewResult(o, "c06: ltx.Compactor / litestream.Compactor.Compact / DB.Compact+Snapshot+Restore vs Lean compact/compactPick + composition oracle")
-	res.Rule = "codec stream: seeded random chains of 1..7 logical LTX files (page size 512; growing/shrinking commits, in-chain full snapshots, overlapping and non-contiguous ranges, sparse pages around the lock page) through the real encoder, ltx.Compactor, decoder and litestream.Compactor.Compact (levels 1..3 over a file replica, with and without max-file cache); history stream: seeded real SQLite histories (page sizes 512/1024/4096, auto_vacuum 0/1/2, inserts/updates/deletes/VACUUM/schema changes/checkpoints) with sync, Compact(level) for 1..8-level layouts (DB.Compact or Store.CompactDB), Snapshot, L0 retention, Restore(TXID) of every TXID before and after every compaction. non-trivial = codec case with >=2 files, history with >=1 successful compaction; distinct = canonical JSON of the case"
+	res.Rule = "codec stream: seeded random chains of 1..7 logical LTX files (page size 512; growing/shrinking commits, in-chain full snapshots, overlapping and non-contiguous ranges, sparse pages around the lock page; plus long backlogs of 1,2,3,63,64,65,66,100,130,300 single-TXID files before one compaction at level 1 and of up to 130 (thorough 300) level-1 files before one compaction at level 2, compacted until ErrNoCompaction, with Restore(TXID=t) for every t) through the real encoder, ltx.Compactor, decoder and litestream.Compactor.Compact (levels 1..3 over a file replica, with and without max-file cache); history stream: seeded real SQLite histories (page sizes 512/1024/4096, auto_vacuum 0/1/2, inserts/updates/deletes/VACUUM/schema changes/checkpoints) with sync, Compact(level) for 1..8-level layouts (DB.Compact or Store.CompactDB), Snapshot, L0 retention, backlog histories (65..130 tiny synced transactions before draining level 1, and as many level-1 files before draining level 2; thorough up to 300), Restore(TXID) of every TXID before and after every compaction. non-trivial = codec case with >=2 files, history with >=1 successful compaction; distinct = canonical JSON of the case"
 	tmp, err := os.MkdirTemp("", "c06-")
 	if err != nil {
 		hx.Fatal(err)
@@ -1301,7 +1511,7 @@ func main() {
 		hx.Fatal(err)
 	}
 	defer drv.Close()
-	cc := &codecCtx{res: res, drv: drv, tmp: tmp}
+	cc := &codecCtx{res: res, drv: drv, tmp: tmp, maxRestoreN: 140}
 
 	evalHist := func(h HistCase, n int) bool {
 		hr := runHist(h, drv, tmp, n)
@@ -1402,7 +1612,33 @@ func main() {
 	for i := 0; i < nLevels && res.Distribution["codec:failing-cases-not-shrunk"] < 50; i++ {
 		cc.evalCodec(genLevels(rnd))
 	}
+	// long backlogs before one compaction (level 1: many L0 files; level 2: many L1 files)
+	backlogA := []int{1, 2, 3, 63, 64, 65, 66, 100, 130, 300}
+	backlogB := []int{3, 63, 64, 65, 66, 100, 130}
+	if o.Tier == "thorough" {
+		backlogB = append(backlogB, 300)
+		cc.maxRestoreN = 400
+	}
+	for _, n := range backlogA {
+		if res.Distribution["codec:failing-cases-not-shrunk"] < 50 {
+			cc.evalCodec(genBacklog(rnd, n, false))
+		}
+	}
+	for _, n := range backlogB {
+		if res.Distribution["codec:failing-cases-not-shrunk"] < 50 {
+			cc.evalCodec(genBacklog(rnd, n, true))
+		}
+	}
 	histFail := 0
+	histBack := [][2]int{{[]int{65, 66, 100, 130}[o.Seed%4], 0}, {[]int{65, 66, 70}[o.Seed%3], 1}}
+	if o.Tier == "thorough" {
+		histBack = [][2]int{{64, 0}, {65, 0}, {66, 0}, {100, 0}, {130, 0}, {300, 0}, {64, 1}, {65, 1}, {66, 1}, {100, 1}, {130, 1}}
+	}
+	for k, hb := range histBack {
+		if histFail < 2 && !evalHist(genHistBacklog(rnd.Fork(), hb[0], hb[1] == 1), 500000+k) {
+			histFail++
+		}
+	}
 	for i := 0; i < nHist && histFail < 2; i++ {
 		if !evalHist(genHist(rnd.Fork(), histOps/2+rnd.Intn(histOps)), i) {
 			histFail++
